@@ -69,7 +69,7 @@ func (cl *Cluster) doProduce(r *Req, req *sarama.ProduceRequest, batches []saram
 			v.Base = int64(len(p.Log))
 			v.Appended = true
 			for k, x := range b.Recs {
-				rec := Rec{Key: x.Key, Value: x.Value, Headers: x.Headers, Timestamp: x.Timestamp, PID: b.PID, Epoch: b.Epoch, Seq: -1, ID: string(x.Value)}
+				rec := Rec{Key: x.Key, Value: x.Value, Headers: x.Headers, Timestamp: x.Timestamp, PID: b.PID, Epoch: b.Epoch, Seq: -1, ID: RecID(x.Key, x.Value)}
 				if b.IsBatch && b.PID >= 0 {
 					rec.Seq = b.FirstSeq + int32(k)
 				}
@@ -182,4 +182,12 @@ func (p *Partition) noteBatch(b sarama.VerifBatch, base int64) {
 		st.recent = st.recent[1:]
 	}
 	st.nextSeq = b.FirstSeq + n
+}
+
+// RecID: the harness puts a message's id into its value; a tombstone (no value) carries it in the key.
+func RecID(key, value []byte) string {
+	if len(value) == 0 && len(key) > 0 {
+		return string(key)
+	}
+	return string(value)
 }
